@@ -404,6 +404,7 @@ package randomness
 //@ func linearComplexity
 //@   requires 1 <= M && M <= len(a)
 //@   modifies nothing
+//@   pure
 //@   ensures 0 <= r0 && r0 <= M
 //@   loop 1
 //@     invariant 0 <= i && i <= M
@@ -429,11 +430,14 @@ package randomness
 //@     invariant 0 <= i && i <= N && len(arr) == m && fresh(arr) && len(v) == 7 && fresh(v) && len(pi) == 7 && fresh(pi) && ref(v) != ref(pi)
 //@     invariant bits == bits@pre[i*m:]
 //@     invariant v[0] + v[1] + v[2] + v[3] + v[4] + v[5] + v[6] == real(i)
+//@     invariant forall c int :: {v[c]} 0 <= c && c < 7 ==> v[c] == real(lccnt(bits@pre, m, c, i))
 //@     invariant pi[0] == 0.010417 && pi[1] == 0.03125 && pi[2] == 0.125 && pi[3] == 0.5 && pi[4] == 0.25 && pi[5] == 0.0625 && pi[6] == 0.020833
 //@   loop 2
 //@     invariant 0 <= j && j <= m
 //@     invariant bits == bits@pre[i*m + j:]
 //@     invariant forall t int :: {arr[t]} 0 <= t && t < j ==> arr[t] == bits@pre[i*m + t]
+//@   assert end loop 1: complexity == linearComplexity#0(shiftseq(bits@pre, i*m), m, m)
+//@   assert end loop 1: T == lcT(m, complexity)
 //@   loop 3
 //@     unroll
 //@   assert in loop 3: sqdev(v[i], real(N) * pi[i]) == (v[i] - real(N) * pi[i]) * (v[i] - real(N) * pi[i]) / (real(N) * pi[i])
